@@ -80,3 +80,15 @@ pub broadcast proof fn axiom_string_eq(a: String, b: String)
 pub proof fn axiom_string_obeys() ensures <String as PartialEqSpec>::obeys_eq_spec() {}
 pub open spec fn ov(o: Option<String>) -> Option<Seq<char>> { match o { None => None, Some(s) => Some(s@) } }
 ''')
+
+
+def int_conversions(U):
+    """ASSUMED axiom: `u32 -> i64` via Into is the numeric cast (std's lossless From impl)"""
+    U.outside('use vstd::std_specs::convert::*;')
+    U.add('''
+#[verifier::external_body]
+pub broadcast proof fn axiom_i64_from_u32(x: u32)
+    ensures <i64 as FromSpec<u32>>::obeys_from_spec(), #[trigger] <i64 as FromSpec<u32>>::from_spec(x) == x as i64 {}
+#[verifier::external_body]
+pub proof fn axiom_i64_from_u32_obeys() ensures <i64 as FromSpec<u32>>::obeys_from_spec() {}
+''')
